@@ -903,9 +903,18 @@ func Merge[T any](in ...Stream[T]) Stream[T] {
 	nDone := uint32(0)
 	closeOnce := uint32(0)
 	ctx, cancel := context.WithCancel(context.Background())
+	if len(in) == 0 {
+		// Nothing will ever be sent: without this the receiver would never see the end.
+		sender.Close(nil)
+	}
+	var wg sync.WaitGroup
+	wg.Add(len(in))
 	for i := 0; i < len(in); i++ {
 		i := i
 		go func() {
+			defer wg.Done()
+			// Merge owns its inputs: each is closed by the goroutine that reads it.
+			defer in[i].Close()
 			defer func() {
 				if int(atomic.AddUint32(&nDone, 1)) == len(in) &&
 					atomic.LoadUint32(&closeOnce) == 0 {
@@ -925,13 +934,20 @@ func Merge[T any](in ...Stream[T]) Stream[T] {
 				}
 				err = sender.Send(ctx, item)
 				if err != nil {
-					// Implies ctx has expired or the receiver closed, either way we're done.
 					return
 				}
 			}
 		}()
 	}
-	return receiver
+	return &mergeStream[T]{
+		inner: receiver,
+		// Closing the output stops the readers (they may be waiting in an input's Next) and waits
+		// for them, so that no goroutine outlives Close.
+		cancel: func() {
+			cancel()
+			wg.Wait()
+		},
+	}
 }
 
 type mergeStream[T any] struct {
